@@ -294,12 +294,19 @@ func goLiteral(e *sexpr, t types.Type, pkg *types.Package) (string, bool) {
 		}
 		return fmt.Sprintf("func(%s) (%s) { return }", strings.Join(ps, ", "), strings.Join(rs, ", ")), true
 	case *types.Interface:
+		replayApprox++
 		return "nil", true
 	case *types.Pointer, *types.Map, *types.Chan:
+		replayApprox++
 		return "nil", true
 	}
 	return "", false
 }
+
+// replayApprox counts the reference-typed inputs (interfaces, pointers, maps, channels) of the replay under
+// construction that the harness could only render as nil although the model may hold another object there. A nil
+// dereference in such a replay says nothing about the real code (GenReplayTest is called serially).
+var replayApprox int
 
 // replayInfo gathers what is needed to call the function under verification from a test.
 func (x *Exec) replayInfo() *ReplayInfo {
@@ -372,6 +379,7 @@ func (e *Engine) GenReplayTest(c *Contract, ri *ReplayInfo, kind, oblName string
 	b.WriteString("import (\n\t\"fmt\"\n\t\"reflect\"\n\t\"testing\"\n)\n\nvar _ = reflect.TypeOf\n\n")
 	b.WriteString("func TestVerifReplay(t *testing.T) {\n")
 	b.WriteString("\tdefer func() {\n\t\tif r := recover(); r != nil {\n\t\t\tfmt.Printf(\"VERIF-REPLAY: PANIC %v\\n\", r)\n\t\t\tt.Fatalf(\"real code panicked on the solver's input: %v\", r)\n\t\t}\n\t}()\n")
+	replayApprox = 0
 	var args []string
 	recv := ""
 	for i, name := range ri.ParamNames {
@@ -418,6 +426,9 @@ func (e *Engine) GenReplayTest(c *Contract, ri *ReplayInfo, kind, oblName string
 				}
 			}
 		}
+	}
+	if replayApprox > 0 {
+		fmt.Fprintf(&b, "\tfmt.Println(\"VERIF-REPLAY: APPROXIMATED-INPUTS %d reference-typed inputs rendered as nil\")\n", replayApprox)
 	}
 	call := fmt.Sprintf(ri.FuncExpr, recv)
 	if !ri.HasRecv {
